@@ -3,17 +3,17 @@ CONSTANTS
   Threads = {"t1"}
   Funcs = {"f1", "f2"}
   FuncSeq <- MCFuncSeq
-  Fakes = {"k1", "k2"}
+  Fakes = {"k1"}
   Sites = {1, 2}
   SlotLen = 4
   MaxPatch = 3
   PatchSizes = {2}
   Split <- MCSplit
   MaxTramps = 4
-  NVals <- MCNValsT
-  BoolSet = {"true", "false"}
+  NVals <- MCNValsC
+  BoolSet = {"true"}
   GuardKinds = {"inj"}
-  MatchVals = {TRUE}
+  MatchVals = {TRUE, FALSE}
   DropOrder = "reverse"
   ResetCounterOnInstall = TRUE
   MprotectSpan = "range"
@@ -23,13 +23,13 @@ CONSTANTS
   FlushEntry = TRUE
   UnmapOnDrop = TRUE
   Linear = TRUE
-  UserCalls = FALSE
-  MaxUserCalls = 0
-  InstallKinds = {"jump", "bool"}
-  Faults = {"mmap", "mprotect"}
+  UserCalls = TRUE
+  MaxUserCalls = 4
+  InstallKinds = {"jump"}
+  Faults = {}
   MaxLives = 1
-  Gates = {"ok", "sig", "bool", "null"}
-  MaxInstalls = 3
+  Gates = {"ok"}
+  MaxInstalls = 2
 CONSTRAINT CanonDrop
 INVARIANT Emit
 CHECK_DEADLOCK FALSE
